@@ -19,13 +19,17 @@ impl Instruction {
         if self.arguments.len() >= 1 {
             for arg in &self.arguments[..] {
                 args.push(' ');
-                if arg.contains(' ') {
-                    args.push('\"');
-                    args.push_str(arg);
-                    args.push('\"');
-                } else {
-                    args.push_str(arg);
-                }
+                // every argument is quoted and escaped the way the loader's tokenizer
+                // decodes it, so that any text survives the trip into the binary form.
+                args.push('\"');
+                args.push_str(
+                    &arg.replace('\\', "\\\\")
+                        .replace('"', "\\\"")
+                        .replace('\n', "\\n")
+                        .replace('\r', "\\r")
+                        .replace('\t', "\\t"),
+                );
+                args.push('\"');
             }
         }
 
